@@ -547,6 +547,7 @@ def shard(ctx: Ctx) -> None:
                     one(ctx, {"framing": "plain", "calls": calls, "events": ev}, "subscriber-removed-repeatedly")
     # calls outstanding on a connection whose connect is stalled, disconnect() waiting on top, then the link is lost (lifecycle engine)
     sweep.stalled_connect_sweep(ctx, "C11")
+    sweep.high_water_sweep(ctx, "C11")
 
 
 def exhaustive(tier: str) -> Any:
